@@ -145,12 +145,31 @@ Proof.
   intros pk st log L pk0 f v Hin. apply in_app_or in Hin. destruct Hin as [Hin|[Hin|[]]]; [now apply L|discriminate].
 Qed.
 
+(* a call during which the pool write fails: the state is unchanged; it answers the pooled proposal or an error *)
+Lemma make_fail_cases : forall pk st,
+  make_fail pk st = (RTooOld, st) \/ make_fail pk st = (RPoolErr, st) \/
+  exists f v, make_fail pk st = (RProp f v, st) /\ by_point pk (m_pool st) = Some (f, v).
+Proof.
+  intros pk st. unfold make_fail, find_or_fail.
+  destruct (m_last st) as [[m mh]|]; [destruct (fst pk <? m - 1); auto|];
+    (destruct (by_point pk (m_pool st)) as [[f v]|] eqn:B; [right; right; exists f, v; auto|auto]).
+Qed.
+
+Lemma fail_step : forall pk st log r st', Logged st log -> make_fail pk st = (r, st') ->
+  st' = st /\ Logged st (log ++ [(pk, r)]).
+Proof.
+  intros pk st log r st' L E.
+  destruct (make_fail_cases pk st) as [C|[C|[f [v [C B]]]]]; rewrite E in C; inversion C; subst; split; auto;
+    intros pk0 f0 v0 Hin; apply in_app_or in Hin; destruct Hin as [Hin|[Hin|[]]]; try (now apply L); try discriminate.
+  inversion Hin; subst. exact B.
+Qed.
+
 Lemma mrun_from_inv : forall ops st log, Forall no_clean ops -> WF st -> Logged st log ->
   WF (fst (mrun_from st log ops)) /\ Logged (fst (mrun_from st log ops)) (snd (mrun_from st log ops)).
 Proof.
   induction ops as [|o t IH]; intros st log Hf W L; cbn [mrun_from fst snd]; auto.
   inversion Hf as [|? ? Ho Ht]; subst.
-  destruct o as [pk prev ops|pk|m mh|]; cbn [mstep].
+  destruct o as [pk prev ops|pk|pk|m mh|]; cbn [mstep].
   - destruct (make pk prev ops st) as [r st'] eqn:E.
     destruct (make_cases pk prev ops st) as [C|[C|C]]; rewrite E in C.
     + inversion C; subst. apply IH; auto. now apply tooold_step.
@@ -160,6 +179,7 @@ Proof.
     destruct (prefer_empty_cases pk st) as [C|C]; rewrite E in C.
     + inversion C; subst. apply IH; auto. now apply tooold_step.
     + symmetry in C. destruct (call_step _ _ _ _ _ _ W L C). now apply IH.
+  - destruct (make_fail pk st) as [r st'] eqn:E. destruct (fail_step _ _ _ _ _ L E) as [-> L']. now apply IH.
   - apply IH; auto. destruct W as [A [B1 B2] C]. constructor; auto. split; auto.
   - contradiction Ho; reflexivity.
 Qed.
@@ -215,12 +235,25 @@ Proof.
   intros pk st log L pk0 f v Hin. apply in_app_or in Hin. destruct Hin as [Hin|[Hin|[]]]; [exact (L _ _ _ Hin)|discriminate].
 Qed.
 
+Lemma listed_fail : forall pk st log r st', WF st -> Listed st log -> all_good st -> make_fail pk st = (r, st') ->
+  st' = st /\ Listed st (log ++ [(pk, r)]).
+Proof.
+  intros pk st log r st' W L G E.
+  destruct (make_fail_cases pk st) as [C|[C|[f [v [C B]]]]]; rewrite E in C; inversion C; subst; split; auto;
+    intros pk0 f0 v0 Hin; apply in_app_or in Hin; destruct Hin as [Hin|[Hin|[]]]; try (exact (L _ _ _ Hin)); try discriminate.
+  inversion Hin; subst.
+  unfold by_point in B. destruct (get key_eqb pk0 (points (m_pool st))) as [f1|] eqn:P; [|discriminate].
+  destruct (get_proposal f1 (m_pool st)) as [v1|] eqn:Gp; [|discriminate]. inversion B; subst.
+  destruct (wf_content _ W _ _ Gp) as [c Hc]. exists c. split; auto.
+  apply (G f0 c). now apply (get_in fact_eqb fact_eqb_spec).
+Qed.
+
 Lemma mrun_from_listed : forall ops st log, Forall ops_good ops -> WF st -> all_good st -> Listed st log ->
   Listed (fst (mrun_from st log ops)) (snd (mrun_from st log ops)).
 Proof.
   induction ops as [|o t IH]; intros st log Hf W G L; cbn [mrun_from fst snd]; auto.
   inversion Hf as [|? ? Ho Ht]; subst.
-  destruct o as [pk prev ops|pk|m mh|]; cbn [mstep].
+  destruct o as [pk prev ops|pk|pk|m mh|]; cbn [mstep].
   - cbn [ops_good] in Ho. destruct (make pk prev ops st) as [r st'] eqn:E.
     destruct (make_cases pk prev ops st) as [C|[C|C]]; rewrite E in C.
     + inversion C; subst. apply IH; auto. now apply listed_tooold.
@@ -230,6 +263,7 @@ Proof.
     destruct (prefer_empty_cases pk st) as [C|C]; rewrite E in C.
     + inversion C; subst. apply IH; auto. now apply listed_tooold.
     + symmetry in C. destruct (listed_call _ _ _ _ _ _ W G good_nil L C) as [A [B D]]. now apply IH.
+  - destruct (make_fail pk st) as [r st'] eqn:E. destruct (listed_fail _ _ _ _ _ W L G E) as [-> L']. now apply IH.
   - apply IH; auto. destruct W as [A [B1 B2] C]. constructor; auto. split; auto.
   - apply IH; auto. now apply WF_clean.
 Qed.
